@@ -1,3 +1,30 @@
-From Verif Require Import Base.
-Theorem placeholder : True. Proof. exact I. Qed.
-Print Assumptions placeholder.
+(* C10 — handler errors reach the caller as errors with the same message; nil stays nil. *)
+From Verif Require Import Base Wire WireProofs Link LinkProofs.
+
+(* every message with a non-blank character (strings.TrimSpace semantics over unicode.IsSpace)
+   is reconstructed verbatim on the caller *)
+Theorem error_text_preserved :
+  forall m c, In c m -> is_space c = false -> caller_err (response_err (Some m)) = Some m.
+Proof. intros m c Hin Hc. apply error_text_preserved_lemma. eapply nonblank_char_not_blank; eauto. Qed.
+Print Assumptions error_text_preserved.
+
+Theorem nil_stays_nil : caller_err (response_err None) = None.
+Proof. exact nil_stays_nil_lemma. Qed.
+Print Assumptions nil_stays_nil.
+
+(* two-result functions: the value accompanies the error, and the step neither touches the fatal
+   slot nor reports anything (an application-level error never terminates the link) *)
+Theorem value_accompanies_error :
+  forall calls s i x m,
+    c_nres (nth i calls dflt_call) = 2 -> f_unmarshal (flt s) = None ->
+    exists s', step_caller calls s i (CSelected (Some (WResp x (Some m)))) = Some s' /\
+               tget (threads s') (TCall i) = Some (CReturned x (Some (EApp m))) /\
+               fatal s' = fatal s /\ bclosed s' = bclosed s /\
+               evs s' = EvReturn i x (Some (EApp m)) :: evs s.
+Proof.
+  intros calls s i x m Hn Hf. unfold step_caller. rewrite Hn. simpl.
+  unfold take_fault. rewrite Hf. simpl.
+  eexists; split; [reflexivity|]. unfold caller_return; simpl.
+  split; [apply tget_tset_same|]. repeat split.
+Qed.
+Print Assumptions value_accompanies_error.
